@@ -22,7 +22,7 @@ RULE = ("G9: configurations derived from the demo one by a parameter vector (ren
 ASSUME = ["the generated package follows the documented conventions by construction and is validated by the harness before judging "
           "(a failing validation is inconclusive, never a violation)",
           "known findings of the sub-checks (third-party '$' anchor) apply under every configuration"]
-BUDGET = {"quick": 6, "thorough": 48}
+BUDGET = {"quick": 6, "thorough": 160}
 SUBS = {
     "c01": {"n": 2500}, "c02": {"n": 1200}, "c03": {"n": 1500}, "c04": {"n": 2500},
     "c05": {"n": 1200, "order": "server_first", "pair": 0}, "c06": {"n": 2500}, "c07": {"n": 1500},
